@@ -232,8 +232,12 @@ class Check:
         self.violations.append((key, what, replay, found_input))
 
     def finish(self, level="proof"):
-        os.makedirs(os.path.join(VERIF, "evidence"), exist_ok=True)
-        os.makedirs(os.path.join(VERIF, "replays"), exist_ok=True)
+        # runs against a scratch copy (VERIF_REPO, used for the seeded changes) must not overwrite the evidence of /repo itself
+        scratch = os.environ.get("VERIF_REPO", "/repo").rstrip("/") != "/repo"
+        evdir = os.path.join(VERIF, "_scratch", "evidence") if scratch else os.path.join(VERIF, "evidence")
+        rpdir = os.path.join(VERIF, "_scratch", "replays") if scratch else os.path.join(VERIF, "replays")
+        os.makedirs(evdir, exist_ok=True)
+        os.makedirs(rpdir, exist_ok=True)
         for key, what in self.known:
             print("KNOWN-FINDING: property=%s %s" % (self.pid, what))
         rc = 0
@@ -248,7 +252,7 @@ class Check:
                 continue
             seen.add(key)
             h = hashlib.sha256((self.pid + key).encode()).hexdigest()[:10]
-            path = os.path.join(VERIF, "replays", "%s-%s.json" % (self.pid, h))
+            path = os.path.join(rpdir, "%s-%s.json" % (self.pid, h))
             with open(path, "w") as f:
                 json.dump({"property": self.pid, "key": key, "what": what, "replay": replay, "seed": self.seed,
                            "tier": self.tier}, f, indent=1)
@@ -260,7 +264,7 @@ class Check:
         ev = {"property_id": self.pid, "tier": self.tier, "seed": self.seed, "level": level, "coverage": self.cov,
               "assumptions": self.assumptions, "wall_s": round(time.time() - self.t0, 2),
               "violations": len(seen)}
-        with open(os.path.join(VERIF, "evidence", self.pid + ".json"), "w") as f:
+        with open(os.path.join(evdir, self.pid + ".json"), "w") as f:
             json.dump(ev, f, indent=1, default=str)
         return rc
 
